@@ -350,8 +350,47 @@ def r18f(run):
            detail=f"{len(self_calls)} self call(s), {len(staged)} staged child contexts", nontrivial=False)
 
 
+# functions that legitimately start a nesting level with a parent context (a data class / decorated function entry)
+LEVEL_CREATORS = {
+    "utype.parser.cls:init_dataclass": "a nested data class is one nesting level",
+    "utype.parser.func:call": "the free helper `call(func, ...)`: a decorated function applied inside another parse is one level",
+    "utype.parser.base:BaseParser.make_context": "forwarding helper of the parser",
+    "utype.parser.cls:ClassParser.make_context": "forwarding helper of the parser",
+    "utype.parser.options:Options.make_context": "the constructor call itself",
+}
+
+
+def r18g(run):
+    """only data-class (and decorated-function) entries create a route-less context chained to a parent: that is what
+    charges one nesting level.  Anything else that does so - e.g. a rule class wrapping the caller's context because it
+    carries its own options - adds a level per use and makes the limit inexact"""
+    total = 0
+    for f in run.repo.all_functions():
+        if not (f.module.name.startswith("utype.parser") or f.module.name in ("utype.schema", "utype.utils.transform")):
+            continue
+        for c in walk_shallow(f.node):
+            if not isinstance(c, ast.Call):
+                continue
+            nm = call_attr(c)
+            if nm not in ("make_context", "RuntimeContext", "context_cls"):
+                continue
+            parent = kwarg(c, "context")
+            if parent is None or isinstance(parent, ast.Constant) and parent.value is None:
+                continue
+            total += 1
+            has_route = kwarg(c, "route") is not None
+            ok = has_route or f.ref in LEVEL_CREATORS
+            run.check("R18g", f, f"`{unparse(c)[:50]}` (child of a parent context, no route) is a data-class level", ok,
+                      construct=f"route-less child context created in {f.qualname}",
+                      message=f"{f.qualname}: `{unparse(c)[:80]}` chains a new context to `{unparse(parent)}` without a "
+                              f"route; RuntimeContext.__init__ charges one nesting level for it",
+                      necessity="every use of such a type below a data class consumes a level: max_depth=d rejects values "
+                                "whose data-class nesting depth is below d (the limit is no longer exact)", node=c)
+    run.floor("R18g", "contexts chained to a parent", total, 4)
+
+
 def check(run):
-    run.rules_run += ["R18a", "R18b", "R18c", "R18d", "R18e", "R18f"]
+    run.rules_run += ["R18a", "R18b", "R18c", "R18d", "R18e", "R18f", "R18g"]
     run.explain("C18: (R18a) the route parameter of RuntimeContext is tested None-exactly, depth is inherited, "
                 "incremented by one on the no-route branch only and compared with `>`; (R18b) every context.enter site "
                 "passes a non-None route and enter() chains context/route/options; (R18c) data-class contexts are "
@@ -365,3 +404,4 @@ def check(run):
     r18d(run)
     r18e(run)
     r18f(run)
+    r18g(run)
